@@ -168,6 +168,12 @@ structure Codec.Lawful (c : Codec) : Prop where
   dec_enc : ∀ d, c.dec (c.enc d) = d
   enc_ne : ∀ d, c.enc d ≠ ""
 
+/-- the same assumption at a single value: all the theorems need it only at the `Data` of the
+    user's original objects. -/
+def Codec.LawfulOn (c : Codec) (d : Data) : Prop := c.dec (c.enc d) = d ∧ c.enc d ≠ ""
+
+theorem Codec.Lawful.on {c : Codec} (h : c.Lawful) (d : Data) : c.LawfulOn d := ⟨h.dec_enc d, h.enc_ne d⟩
+
 /-! ## strategy -/
 
 inductive Traffic where
